@@ -169,6 +169,7 @@ structure Judge where
   wsArgs : List Nat             -- arguments of the SetWindow calls still to come
   lastQ : Option (List (Option Nat)) := none   -- view at the last `Q` if nothing happened since
   pendingM : Option (List (Option Nat) × Nat) := none  -- (view before, n) of a `Q M` just seen
+  pendingW : Option (List (Option Nat)) := none        -- view before a `Q W` just seen
   bad : Option String := none
 
 def lookupT (l : List (Nat × Nat)) (w : Nat) : Option Nat := (l.find? (fun p => p.1 == w)).map (·.2)
@@ -224,7 +225,7 @@ def Judge.admission (j : Judge) (w t : Nat) (callT : Option Nat) (cancelT : Opti
       -- zero window: no sleeping, except for the one iteration scheduled before a change
       if j.W = 0 ∧ t ≠ c ∧ ¬ (j.changed ∧ (j.seg = [] ∨ j.seg.getLast? = some t)) then j.fail "zero-window-slept" else j
   let j := if checkAdm j.N j.W j.seg t then j else j.fail "window-exceeded"
-  { j with seg := t :: j.seg, all := t :: j.all, done := w :: j.done, lastQ := none, pendingM := none }
+  { j with seg := t :: j.seg, all := t :: j.all, done := w :: j.done, lastQ := none, pendingM := none, pendingW := none }
 
 def judgeTok (calls cancels allows : List (Nat × Nat)) (j : Judge) (tok : String) : Judge :=
   let k := kind tok
@@ -260,17 +261,17 @@ def judgeTok (calls cancels allows : List (Nat × Nat)) (j : Judge) (tok : Strin
       let j := { j with ms := rest }
       let invalid := n = 0 ∧ j.W ≠ 0
       if tok = "M!" then
-        (if invalid then j else j.fail "setmax-panicked") |> fun j => { j with lastQ := none, pendingM := none }
+        (if invalid then j else j.fail "setmax-panicked") |> fun j => { j with lastQ := none, pendingM := none, pendingW := none }
       else if invalid then j.fail "invalid-config-accepted"
       else
         let pm := j.lastQ.map (fun v => (v, n))
-        if n = j.N then { j with lastQ := none, pendingM := pm }
-        else { j with N := n, seg := [], changed := true, lastQ := none, pendingM := pm }
+        if n = j.N then { j with lastQ := none, pendingM := pm, pendingW := none }
+        else { j with N := n, seg := [], changed := true, lastQ := none, pendingM := pm, pendingW := none }
   else if k = "W" then
     match j.wsArgs with
     | [] => j.fail "unexpected-setwindow"
     | d :: rest =>
-      let j := { j with wsArgs := rest, lastQ := none, pendingM := none }
+      let j := { j with wsArgs := rest, pendingW := j.lastQ, lastQ := none, pendingM := none }
       let invalid := j.N = 0 ∧ d ≠ 0
       if tok = "W!" then (if invalid then j else j.fail "setwindow-panicked")
       else if invalid then j.fail "invalid-config-accepted"
@@ -288,7 +289,11 @@ def judgeTok (calls cancels allows : List (Nat × Nat)) (j : Judge) (tok : Strin
       let j := match j.pendingM with
         | some (before, n) => if v == resizeSpec before n then j else j.fail "resize-not-newest"
         | none => j
-      { j with lastQ := some v, pendingM := none }
+      -- a window change (effective or not, refused or not) leaves the remembered admissions alone
+      let j := match j.pendingW with
+        | some before => if v == before then j else j.fail "window-change-forgot-admissions"
+        | none => j
+      { j with lastQ := some v, pendingM := none, pendingW := none }
   else if k = "E" then
     -- every waiter whose context was cancelled has returned (at once, or it had been admitted)
     if cancels.all (fun p => j.done.contains p.1 || (lookupT calls p.1).isNone) then j else j.fail "cancel-ignored"
